@@ -519,6 +519,89 @@ def _float_bits(f: float) -> int:
     return struct.unpack('<Q', struct.pack('<d', f))[0]
 
 
+ULP_FACTORS = (1e-3, 0.1, 0.3, 0.49, 0.5, 0.51, 1.0, 3.0, 1e3)
+
+
+def _from_float_tol_cases(rng, n):
+    """(float, tolerance) pairs for TimeType.from_float(f, err), 0 < err <= 1. Three streams:
+    ordinary (uniform floats, decimal tolerances), ulp-relative (err = c * ulp(f), c around 1/2, for floats of
+    magnitude 1e-3 ... 1e18 including large non-integral ones), and floats next to simple fractions with
+    tolerances from 1e-20 to 1 (so that the simple fraction is or is not inside)."""
+    cases = []
+    for _ in range(n):
+        f = rng.uniform(-50, 50)
+        err = rng.choice([1e-3, 1e-6, 1e-9, 0.5, 1.0, 0.25, rng.uniform(1e-12, 1.0)])
+        cases.append((f, err))
+
+    def some_float():
+        k = rng.random()
+        if k < 0.3:
+            return rng.choice([-1, 1]) * rng.uniform(1, 10) * 10.0 ** rng.randrange(-3, 19)
+        if k < 0.6:
+            # large non-integral floats: k + simple dyadic / decimal part
+            base = rng.randrange(10 ** 10, 10 ** 15) if rng.random() < 0.7 else rng.randrange(1, 10 ** 10)
+            return rng.choice([-1, 1]) * (base + rng.choice([0.375, 0.5, 0.25, 0.125, 0.1, 0.3, 0.7, 1 / 3]))
+        # next to a simple fraction
+        q = rng.randrange(1, 13)
+        return rng.randrange(-3 * q, 3 * q + 1) / q + rng.choice([0, 0, 1, -1, 3]) * rng.choice([0.0, 1e-17, 1e-12])
+
+    fixed = [(0.1, 6e-18), (1e15 + 0.375, 0.06), (1 / 3, 2e-17), (2 / 3, 5e-17), (0.7, 5e-17), (0.1, 1e-20),
+             (12345678901.3, 1e-6), (0.1, 1e-17), (0.3, 2e-17)]
+    cases.extend(fixed)
+    for _ in range(n):
+        f = some_float()
+        if not math.isfinite(f):
+            continue
+        if rng.random() < 0.7:
+            err = rng.choice(ULP_FACTORS) * math.ulp(f)
+        else:
+            err = 10.0 ** rng.uniform(-20, 0)
+        if 0 < err <= 1:
+            cases.append((f, err))
+    return cases
+
+
+def _check_from_float_tol(ctx, cases):
+    """TimeType.from_float(f, err) for python floats f: the answer must be the fraction of smallest denominator
+    strictly inside (f - err, f + err) taken with the EXACT values of the two floats (judge-approx; for big
+    denominators the Lean judge only checks `inside` and the Stern-Brocot descent supplies the smaller-denominator
+    witness)."""
+    TimeType, numeric, gmpy2 = _imports()
+    jl, res = [], []
+    kept, timeouts = [], 0
+    for f, err in cases:
+        t = with_time_limit(_from_float_guarded, TimeType, f, err)
+        if isinstance(t, list):          # ['error', 'timeout' | exception class]
+            ctx.case(sx(['c14', 'from-float-tol', F(f), F(err)]))
+            what = ('did not return within %.0f s' % IMPL_TIME_LIMIT) if t[1] == 'timeout' else 'raised ' + t[1]
+            ctx.violation('TimeType.from_float(%r, %r) %s for a valid tolerance' % (f, err, what),
+                          {'kind': 'from_float_tol', 'value': repr(f), 'err': repr(err), 'impl': t[1]})
+            if t[1] == 'timeout':
+                timeouts += 1
+                if timeouts >= MAX_TIMEOUTS:
+                    break
+            continue
+        r = F(int(t.numerator), int(t.denominator))
+        res.append(r)
+        kept.append((f, err))
+        jl.append(sx(['c14', 'judge-approx', F(f), F(err), r]))
+    cases = kept
+    for (f, err), r, ans, line in zip(cases, res, core.Lean.run(jl), jl):
+        ctx.case(line)
+        ctx.count('from_float:tolerance')
+        ctx.count('from_float:tolerance:' + ('below-half-ulp' if err < math.ulp(f) / 2 else 'above-half-ulp'))
+        verdict = ans[1]
+        if verdict == 'inside-only':
+            ctx.count('from_float:tolerance:judge-inside-only')
+            best = simplest_between(F(f) - F(err), F(f) + F(err))
+            verdict = 'ok' if best.denominator == r.denominator else \
+                'not-minimal (%s with the smaller denominator %d is strictly inside too)' % (best, best.denominator)
+        if verdict != 'ok':
+            ctx.violation('TimeType.from_float(%r, %r) = %s: %s' % (f, err, r, verdict),
+                          {'kind': 'from_float_tol', 'value': repr(f), 'err': repr(err), 'impl': str(r),
+                           'judge': verdict})
+
+
 def _check_from_float(ctx, n):
     TimeType, numeric, gmpy2 = _imports()
     rng = ctx.fork('from_float')
@@ -573,40 +656,7 @@ def _check_from_float(ctx, n):
             ctx.violation('float(TimeType.from_float(%r, mode=%s)) = %r' % (f, mode, float(t)),
                           {'kind': 'from_float_back', 'value': repr(f), 'mode': mode})
     # tolerance mode through the float entry point: judged with the exact float values
-    cases = []
-    for _ in range(n // 2):
-        f = rng.uniform(-50, 50)
-        err = rng.choice([1e-3, 1e-6, 1e-9, 0.5, 1.0, 0.25, rng.uniform(1e-12, 1.0)])
-        cases.append((f, err))
-    jl, res = [], []
-    kept, timeouts = [], 0
-    for f, err in cases:
-        t = with_time_limit(_from_float_guarded, TimeType, f, err)
-        if isinstance(t, list):          # ['error', 'timeout' | exception class]
-            ctx.case(sx(['c14', 'from-float-tol', F(f), F(err)]))
-            what = ('did not return within %.0f s' % IMPL_TIME_LIMIT) if t[1] == 'timeout' else 'raised ' + t[1]
-            ctx.violation('TimeType.from_float(%r, %r) %s for a valid tolerance' % (f, err, what),
-                          {'kind': 'from_float_tol', 'value': repr(f), 'err': repr(err), 'impl': t[1]})
-            if t[1] == 'timeout':
-                timeouts += 1
-                if timeouts >= MAX_TIMEOUTS:
-                    break
-            continue
-        r = F(int(t.numerator), int(t.denominator))
-        res.append(r)
-        kept.append((f, err))
-        jl.append(sx(['c14', 'judge-approx', F(f), F(err), r]))
-    cases = kept
-    for (f, err), r, ans, line in zip(cases, res, core.Lean.run(jl), jl):
-        ctx.case(line)
-        ctx.count('from_float:tolerance')
-        if ans[1] == 'inside-only':
-            best = simplest_between(F(f) - F(err), F(f) + F(err))
-            if best.denominator == r.denominator:
-                continue
-        if ans[1] != 'ok':
-            ctx.violation('TimeType.from_float(%r, %r) = %s: %s' % (f, err, r, ans[1]),
-                          {'kind': 'from_float_tol', 'value': repr(f), 'err': repr(err), 'impl': str(r), 'judge': ans[1]})
+    _check_from_float_tol(ctx, _from_float_tol_cases(rng, n // 2))
     for bad in (-1e-3, 1.5):
         ctx.case('from_float-bad-tolerance-%r' % bad, nontrivial=False)
         try:
@@ -642,7 +692,7 @@ def run(ctx: core.Ctx):
                 '(wide, float-born, near-simple-fraction boundary, malformed e<=0); TimeType operator table over '
                 '8 operand kinds x 11 binary + 8 unary operators; history family: one operator applied in one process to '
                 'operands of different kinds carrying equal values (float / numpy float64,float32 / Fraction / mpq / '
-                'exact TimeType / sympy / int), float-like kinds first or exact kinds first; from_float in 3 modes. Non-trivial = the '
+                'exact TimeType / sympy / int), float-like kinds first or exact kinds first; from_float in 3 modes (tolerance mode with tolerances relative to ulp(f), large non-integral floats and floats next to simple fractions). Non-trivial = the '
                 'approximation loop is entered (non-integer x) or an operator/convert case; distinct by canonical line')
     ctx.assumptions = [
         'CPython float repr is the shortest round-tripping decimal and int/int true division is correctly rounded',
@@ -677,6 +727,8 @@ def replay(ctx: core.Ctx, rec: dict, from_corpus: bool = False) -> bool:
         a = F(rec['t'])
         res = _run_history_group(TimeType, value, rec['op'], a, rec['side'], rec['order'])
         _judge_history(ctx, [(value, rec['op'], a, rec['side'], rec['order'], res)])
+    elif kind == 'from_float_tol' and 'value' in rec and 'err' in rec:
+        _check_from_float_tol(ctx, [(float(rec['value']), float(rec['err']))])
     elif kind in ('op', 'hash', 'pow', 'from_float', 'from_float_tol', 'from_float_back'):
         # these families are deterministic given the seed: re-run the family at the recorded seed
         sub = core.Ctx(ctx.pid, rec.get('tier', 'quick'), rec.get('seed', 0))
